@@ -46,11 +46,22 @@ func byteAsRuneSites(fn *ssa.Function) []byteAsRuneSite {
 	var out []byteAsRuneSite
 	eng.Instrs(fn, true, func(in ssa.Instruction) {
 		conv, ok := in.(*ssa.Convert)
-		if !ok || !isUint8(conv.X.Type()) || !isRuneT(conv.Type()) {
+		if !ok || !isUint8(conv.X.Type()) {
+			return
+		}
+		// string(b) with b a byte encodes the code point b as UTF-8 at once
+		direct := false
+		if bt, ok := conv.Type().Underlying().(*types.Basic); ok && bt.Info()&types.IsString != 0 {
+			direct = true
+		}
+		if !direct && !isRuneT(conv.Type()) {
 			return
 		}
 		// where the rune goes
 		var sink ssa.Instruction
+		if direct {
+			sink = conv
+		}
 		seen := map[ssa.Value]bool{}
 		var follow func(v ssa.Value)
 		follow = func(v ssa.Value) {
@@ -80,7 +91,9 @@ func byteAsRuneSites(fn *ssa.Function) []byteAsRuneSite {
 				}
 			}
 		}
-		follow(conv)
+		if !direct {
+			follow(conv)
+		}
 		if sink == nil {
 			return
 		}
